@@ -56,6 +56,9 @@ type clientStream struct {
 	// reset written by teardown: the reset is the last envelope of the stream.
 	// It is held across the transport write, never together with protected.
 	sendMu sync.Mutex
+	// sentLast is set, under sendMu, once the half-close has been written:
+	// CloseSend is idempotent and nothing is sent after it.
+	sentLast bool
 
 	rCh chan *goatorepo.Body
 
@@ -222,7 +225,15 @@ func (cs *clientStream) CloseSend() error {
 		}
 		return toStatusError(ctxErr)
 	}
+	if cs.sentLast {
+		// Half-closed already (an explicit CloseSend next to a deferred one).
+		cs.sendMu.Unlock()
+		return nil
+	}
 	err := cs.rw.Write(cs.ctx, &tr)
+	if err == nil {
+		cs.sentLast = true
+	}
 	cs.sendMu.Unlock()
 	if err != nil && cs.ctx.Err() != nil {
 		// The read loop cancels cs.ctx when the stream finishes: a write which
@@ -307,6 +318,10 @@ func (cs *clientStream) SendMsg(m interface{}) error {
 			return err
 		}
 		return toStatusError(ctxErr)
+	}
+	if cs.sentLast {
+		cs.sendMu.Unlock()
+		return status.Error(codes.Internal, "SendMsg called after CloseSend")
 	}
 	err = cs.rw.Write(cs.ctx, &rpc)
 	cs.sendMu.Unlock()
